@@ -100,7 +100,7 @@ func (e *r1env) newGroup(r *mon.Run, gc GroupCase) *r1group {
 		members[i] = mkMember(gc.Keys[i], gc.IDs[i])
 	}
 	gh := common.BytesToHash(mustHex(gc.GroupHash))
-	g.dkg = group_create.VerifDKG(members, gh, gc.Order)
+	g.dkg = runDKG(r, &gc, members)
 	g.k = model.Param.GetGroupK(n)
 	for _, rc := range g.dkg.Results {
 		if rc != 1 {
@@ -190,6 +190,9 @@ func (g *r1group) deliver(r *mon.Run, w Round1Witness) {
 		}
 	})
 	r.Count("round1_sequences", 1)
+	if g.gc.mixed(w.Mask) {
+		r.Count("round1_sequences_mixed_rebuild", 1)
+	}
 	r.Distinct("round1_subset", []byte(g.gc.key()), []byte{byte(w.Mask), byte(w.Mask >> 8)})
 }
 
